@@ -611,16 +611,79 @@ def gen_stroker_fields(repo, outdir, results):
         st = re.sub(r"//[^\n]*", "", st)
         fields = re.findall(r"^\s*(\w+)\s*:", st, re.M)
         body = re.search(r"fn stroke_inner\(.*?\) -> Option<Path> \{(.*?)\n    \}\n", src, re.S).group(1)
-        # assignments before the segment loop
+        # assignments before the segment loop, at the top nesting level only (an assignment under an `if` does
+        # not reset the field on every call)
         head = body.split("let mut last_segment_is_line")[0] if "let mut last_segment_is_line" in body else body.split("for ")[0]
-        assigned = sorted(set(re.findall(r"self\.(\w+)\s*=[^=]", head)))
-        cleared = sorted(set(re.findall(r"self\.(\w+)\.clear\(\)", head)))
+        head = re.sub(r"//[^\n]*", "", head)
+        depth, top = 0, ""
+        for ch in head:
+            if ch == "{":
+                depth += 1
+            elif ch == "}":
+                depth -= 1
+            elif depth == 0:
+                top += ch
+        assigned = sorted(set(re.findall(r"self\.(\w+)\s*=[^=]", top)))
+        cleared = sorted(set(re.findall(r"self\.(\w+)\s*\.clear\(\)", top)))
         txt += "Definition stroker_fields : list string := [%s].\n" % "; ".join('"%s"' % f for f in fields)
         txt += "Definition stroker_reset_assigned : list string := [%s].\n" % "; ".join('"%s"' % f for f in assigned)
         txt += "Definition stroker_reset_cleared : list string := [%s].\n" % "; ".join('"%s"' % f for f in cleared)
     except Exception as ex:
         ok = False
         msg = str(ex)
+        txt += "(* NOT TRANSLATED: %s *)\n" % ex
+    # the three ways to obtain an empty builder: PathBuilder::new, PathBuilder::clear, Path::clear
+    try:
+        pb = open(os.path.join(repo, "path/src/path_builder.rs")).read()
+        pa = open(os.path.join(repo, "path/src/path.rs")).read()
+
+        def norm(v):
+            v = v.strip().rstrip(",;").strip()
+            return {"Vec::new()": "empty", "self.verbs": "empty", "self.points": "empty"}.get(v, v)
+
+        def lit(body):
+            m = re.search(r"PathBuilder \{(.*?)\n\s*\}", body, re.S)
+            out = []
+            for line in m.group(1).split("\n"):
+                line = re.sub(r"//.*", "", line).strip()
+                if not line:
+                    continue
+                if line.startswith(".."):
+                    out.append(("..", norm(line[2:])))
+                else:
+                    k, v = line.split(":", 1)
+                    out.append((k.strip(), norm(v)))
+            return sorted(out)
+        new_body = re.search(r"pub fn new\(\) -> Self \{(.*?)\n    \}\n", pb, re.S).group(1)
+        clr_body = re.search(r"pub fn clear\(&mut self\) \{(.*?)\n    \}\n", pb, re.S).group(1)
+        pcl_body = re.search(r"pub fn clear\(mut self\) -> PathBuilder \{(.*?)\n    \}\n", pa, re.S).group(1)
+        f_new = lit(new_body)
+        f_clr = []
+        for line in clr_body.split("\n"):
+            line = re.sub(r"//.*", "", line).strip()
+            m1 = re.match(r"self\.(\w+)\.clear\(\);", line)
+            m2 = re.match(r"self\.(\w+)\s*=\s*(.*);", line)
+            if m1:
+                f_clr.append((m1.group(1), "empty"))
+            elif m2:
+                f_clr.append((m2.group(1), norm(m2.group(2))))
+            elif line:
+                f_clr.append(("?", line))
+        f_clr = sorted(f_clr)
+        pre = [re.match(r"self\.(\w+)\.clear\(\);", l.strip()) for l in pcl_body.split("PathBuilder {")[0].split("\n")]
+        cleared_first = sorted(m.group(1) for m in pre if m)
+        f_pcl = lit(pcl_body)
+        # `verbs: self.verbs` only counts as empty when self.verbs.clear() ran before
+        f_pcl = sorted((k, v if (k not in ("verbs", "points") or k in cleared_first) else "not-cleared") for k, v in f_pcl)
+
+        def coq(l):
+            return "[%s]" % "; ".join('("%s", "%s")' % kv for kv in l)
+        txt += "Definition builder_new_state : list (string * string) := %s.\n" % coq(f_new)
+        txt += "Definition builder_clear_state : list (string * string) := %s.\n" % coq(f_clr)
+        txt += "Definition path_clear_state : list (string * string) := %s.\n" % coq(f_pcl)
+    except Exception as ex:
+        ok = False
+        msg += " builder states: " + str(ex)
         txt += "(* NOT TRANSLATED: %s *)\n" % ex
     results.append(("stroker-fields", ok, msg))
     write_if_changed(os.path.join(outdir, "StrokerFields.v"), txt)
